@@ -11,6 +11,12 @@ import (
 // resume after a mutant by its sequence number alone.
 
 // sigma is the structural alphabet used by the replace-byte operator.
+// caseRunes are inserted (never substituted) by the case-rune operators: byte sequences whose length
+// changes under strings.ToLower / strings.ToUpper, so that offsets computed on a case-folded copy do not
+// fit the original: an invalid UTF-8 byte (becomes U+FFFD, +2 bytes), U+023A (lower case is 1 byte longer),
+// the Kelvin sign U+212A (lower case 2 bytes shorter), U+0250 (upper case is 1 byte longer).
+var caseRunes = []string{"\xff", "\u023a", "\u212a", "\u0250"}
+
 var sigma = []byte{'{', '}', '[', ']', '"', ':', ',', '\n', ' ', '0', '-', '<', '=', '@', 0x00, 0xff}
 
 // minimal documents of each syntax class (distance-0 seeds no fixture looks like).
@@ -42,15 +48,17 @@ type bounds struct {
 	sigmaLine int // seeds up to this size (and above sigmaAll): sigma-replace at line starts
 	byteOps   int // seeds up to this size: delete byte i, duplicate byte i
 	nullify   int // text seeds up to this size: replace each value token / bracket group by null
+	caseIns   int // text seeds up to this size: insert each case rune at file start, line starts, around ':' '=' and at word boundaries
+	caseLine  int // text seeds up to this size: line i := case rune + first k bytes of line i, every k (lines <= 200 B)
 	lineCut   int // text seeds up to this size: truncate line i at every column / drop its first k bytes (lines <= 200 B)
 	binFF     bool
 }
 
 func boundsFor(tier string) bounds {
 	if tier == "thorough" {
-		return bounds{truncAll: 64 << 10, lineOps: 64 << 10, sigmaAll: 32 << 10, sigmaLine: 64 << 10, byteOps: 16 << 10, nullify: 64 << 10, lineCut: 32 << 10, binFF: true}
+		return bounds{truncAll: 64 << 10, lineOps: 64 << 10, sigmaAll: 32 << 10, sigmaLine: 64 << 10, byteOps: 16 << 10, nullify: 64 << 10, lineCut: 32 << 10, caseIns: 32 << 10, caseLine: 8 << 10, binFF: true}
 	}
-	return bounds{truncAll: 2 << 10, lineOps: 64 << 10, sigmaAll: 256, sigmaLine: 2 << 10, byteOps: 256, nullify: 2 << 10, lineCut: 8 << 10, binFF: false}
+	return bounds{truncAll: 2 << 10, lineOps: 64 << 10, sigmaAll: 256, sigmaLine: 2 << 10, byteOps: 256, nullify: 2 << 10, lineCut: 8 << 10, caseIns: 2 << 10, caseLine: 2 << 10, binFF: false}
 }
 
 func isBinary(seed []byte) bool {
@@ -85,8 +93,8 @@ func lineStarts(seed []byte) []int {
 
 // mutDesc names a mutant.
 type mutDesc struct {
-	Op   string
-	A, B int
+	Op      string
+	A, B, C int
 }
 
 func (d mutDesc) String() string {
@@ -105,6 +113,10 @@ func (d mutDesc) String() string {
 		return fmt.Sprintf("line %d truncated at column %d (rest of the file kept)", d.A, d.B)
 	case "cut-line-head":
 		return fmt.Sprintf("line %d loses its first %d bytes", d.A, d.B)
+	case "case-insert":
+		return fmt.Sprintf("insert %+q at offset %d", caseRunes[d.B], d.A)
+	case "case-line":
+		return fmt.Sprintf("line %d := %+q + its first %d bytes", d.A, caseRunes[d.C], d.B)
 	case "repack":
 		return "re-packed unchanged"
 	case "drop-entry", "duplicate-entry", "empty-entry":
@@ -264,6 +276,42 @@ func enumerate(seed []byte, tier string, from int, fn func(seq int, d mutDesc, d
 			}
 		}
 	}
+	if n > 0 && n <= b.caseIns && !isBinary(seed) {
+		for _, k := range insertPositions(seed, st[:nl]) {
+			for ri, r := range caseRunes {
+				if !emit(mutDesc{Op: "case-insert", A: k, B: ri}, func() []byte {
+					buf = append(append(append(buf[:0], seed[:k]...), r...), seed[k:]...)
+					return buf
+				}) {
+					return seq
+				}
+			}
+		}
+	}
+	if n > 0 && n <= b.caseLine && !isBinary(seed) {
+		for i := 0; i < nl; i++ {
+			from, to := st[i], st[i+1]
+			if to > from && seed[to-1] == '\n' {
+				to--
+			}
+			if to > from && seed[to-1] == '\r' {
+				to--
+			}
+			if to-from > 200 || to == from {
+				continue
+			}
+			for k := from; k < to; k++ { // k == to is the plain insertion at the line start, done above
+				for ri, r := range caseRunes {
+					if !emit(mutDesc{Op: "case-line", A: i, B: k - from, C: ri}, func() []byte {
+						buf = append(append(append(append(buf[:0], seed[:from]...), r...), seed[from:k]...), seed[to:]...)
+						return buf
+					}) {
+						return seq
+					}
+				}
+			}
+		}
+	}
 	if n <= b.nullify && !isBinary(seed) {
 		for _, sp := range valueSpans(seed) {
 			if !emit(mutDesc{Op: "nullify", A: sp[0], B: sp[1]}, func() []byte {
@@ -295,6 +343,35 @@ func enumerate(seed []byte, tier string, from int, fn func(seq int, d mutDesc, d
 		}
 	}
 	return seq
+}
+
+// insertPositions: offset 0, every line start, before and after every ':' and '=', and every boundary
+// between a run of letters/digits and anything else.
+func insertPositions(seed []byte, lineStarts []int) []int {
+	n := len(seed)
+	mark := make([]bool, n+1)
+	mark[0] = true
+	for _, p := range lineStarts {
+		mark[p] = true
+	}
+	word := func(c byte) bool {
+		return c >= '0' && c <= '9' || c >= 'a' && c <= 'z' || c >= 'A' && c <= 'Z' || c >= 0x80
+	}
+	for i := 0; i < n; i++ {
+		if seed[i] == ':' || seed[i] == '=' {
+			mark[i], mark[i+1] = true, true
+		}
+		if i > 0 && word(seed[i]) != word(seed[i-1]) {
+			mark[i] = true
+		}
+	}
+	var out []int
+	for i, m := range mark {
+		if m {
+			out = append(out, i)
+		}
+	}
+	return out
 }
 
 // valueSpans finds the value positions of a JSON/YAML/TOML-like text: quoted strings that are not keys,
